@@ -58,12 +58,19 @@ class Escape:
 
 
 class ExcFlow:
-    def __init__(self, prog: Program, lambda_policy=None, site_filter=None):
+    # partial functions of the math module: (exception class, predicate on the call)
+    PARTIAL_MATH = {
+        "math.log": "ValueError", "math.log2": "ValueError", "math.log10": "ValueError", "math.sqrt": "ValueError",
+        "math.acos": "ValueError", "math.asin": "ValueError", "math.pow": "ValueError", "math.exp": "OverflowError",
+    }
+
+    def __init__(self, prog: Program, lambda_policy=None, site_filter=None, partial_math=None):
         """site_filter(fi, si, kind, payload, callee) -> None (keep) | 'skip' (the site
         contributes nothing) | an ExcFlow instance whose escape set for the callee is used
         instead of this one's (context: validated receiver)."""
         self.prog = prog
         self.site_filter = site_filter
+        self.partial_math = partial_math  # predicate(FuncInfo) -> bool: model math-domain errors in that function
         self.esc: Dict[str, Dict[Tuple[str, str], Tuple[str, ...]]] = {}
         # function qualname -> {(class, origin-site-key): chain}
         self.lambda_policy = lambda_policy or default_lambda_policy
@@ -159,6 +166,12 @@ class ExcFlow:
                     for n in walk_expr(e, into_lambdas=False):
                         if isinstance(n, ast.Call):
                             sites.append((si, "call", n))
+                            if self.partial_math is not None and self.partial_math(fi):
+                                d = dotted(n.func) or ""
+                                cls = self.PARTIAL_MATH.get(d)
+                                if cls is not None and not (d == "math.pow" and len(n.args) == 2 and isinstance(n.args[1], ast.Constant)
+                                                            and isinstance(n.args[1].value, int) and n.args[1].value >= 0):
+                                    sites.append((si, "raise", cls))
                         elif isinstance(n, ast.Attribute) and isinstance(n.ctx, ast.Load):
                             sites.append((si, "attr", n))
                         elif isinstance(n, ast.Lambda):
